@@ -4,6 +4,7 @@ import (
 	"bufio"
 	"fmt"
 	"os"
+	"time"
 
 	"pkg/lmd"
 )
@@ -13,6 +14,28 @@ func extra(cmd string, _ []string) {
 	os.Exit(2)
 }
 
-func extraOp(_ *bufio.Writer, _ **lmd.VerifInstance, _ string, _ opLine) bool {
-	return false
+func extraOp(out *bufio.Writer, inst **lmd.VerifInstance, op string, line opLine) bool {
+	switch op {
+	case "session":
+		if *inst == nil {
+			emit(out, map[string]interface{}{"id": line.ID, "op": "session", "error": "no dataset"})
+
+			return true
+		}
+		fmt.Fprintf(os.Stderr, "@start %d\n", line.ID)
+		scratch := os.Getenv("VERIF_SCRATCH")
+		if scratch == "" {
+			scratch = fmt.Sprintf("/scratch/lmdharness-%d", os.Getpid())
+		}
+		res, timedOut, err := (*inst).VerifSession([]byte(line.Text), scratch+"-sock", 5*time.Second)
+		errStr := ""
+		if err != nil {
+			errStr = err.Error()
+		}
+		emit(out, map[string]interface{}{"id": line.ID, "op": "session", "out": string(res), "timeout": timedOut, "err": errStr})
+
+		return true
+	default:
+		return false
+	}
 }
